@@ -68,6 +68,9 @@ Definition oracle (c : ocase) : bool :=
   let cl := obs_calls obs in
   let wantc := entitled_calls h in
   Nat.eqb (length obs) (length h)
+  (* whole packets only: nothing reaches the server that is not a CONNECT, a frame of an event packet
+     that follows its header, or an ACK (kind 8 = attachment without a header, 9 = unknown) *)
+  && forallb (fun '(w, _) => forallb (fun '(k, _, _, _) => (k <=? 2)%N) w) obs
   (* exactly once, in order, contiguous: the delivered frames are the entitled ones, all of them once
      the history ends connected, a prefix of them (the rest is parked) otherwise; volatile emits made
      while not connected are not among the entitled ones *)
